@@ -700,7 +700,13 @@ void SoPlexBase<R>::_storeSolutionReal(bool verify)
    else if(_realLP != &_solver)
    {
       assert(_solver.isScaled());
+      typename SPxBasisBase<R>::SPxStatus scaledBasisStatus = _solver.getBasisStatus();
+
       _loadRealLP(false);
+
+      // the solver now holds the unscaled LP without a basis; load the basis of the scaled LP into it
+      _solver.setBasisStatus(scaledBasisStatus);
+      _solver.setBasis(_basisStatusRows.get_const_ptr(), _basisStatusCols.get_const_ptr());
    }
 
    // unscale stored solution (removes persistent scaling)
